@@ -123,10 +123,6 @@ def check(case):
     xs = [row.distance.raw_value / 12.0 for row in rows]
     tsx = [row.time for row in rows]
     # wind classification by the range component in force at R
-    wr = 0.0
-    for w in sorted(spec.get("winds") or [], key=lambda w: w[2]):
-        if w[2] > R or w is (spec.get("winds") or [None])[-1]:
-            pass
     ws = sorted(spec.get("winds") or [], key=lambda w: w[2])
     comps = [w[0] * math.cos(w[1]) for w in ws]
     maxc = max([abs(c) for c in comps], default=0.0)
@@ -171,7 +167,6 @@ def check(case):
     order = sorted(range(len(xs)), key=lambda i: xs[i])
     xs_sorted = [xs[i] for i in order]
     missing = []
-    j = 0
     for k in range(n_req + 1):
         m = k * s
         # xs is ascending (checked above; if not, a violation has been recorded already): bisect instead of a scan
